@@ -9,7 +9,10 @@ hook_commits = subprocess.run(["git", "-C", "/repo", "log", "--format=%H %s"], c
 hook_commits = [l.split()[0] for l in hook_commits if l.split(" ", 1)[1].startswith("verif-hooks")]
 
 checks = []
+CLAIMED_ONLY = [l.strip() for l in open(os.path.join(ROOT, 'lib', 'claimed.txt')) if l.strip()]
 for pid in sorted(specs.PROPS):
+    if pid not in CLAIMED_ONLY:
+        continue
     P = specs.PROPS[pid]
     checks.append(dict(
         property_id=pid,
@@ -22,7 +25,7 @@ for pid in sorted(specs.PROPS):
         level_note=P["level_note"],
         technique=P.get("technique", "bounded model checking of the real Rust code with Kani/CBMC (SAT), symbolic inputs, native replay of counterexamples"),
     ))
-claimed = set(specs.PROPS)
+claimed = set(p for p in specs.PROPS if p in CLAIMED_ONLY)
 m = dict(
     version=1,
     setup_cmd="./setup.sh",
